@@ -1,0 +1,23 @@
+//go:build verif
+
+package psql
+
+import (
+	"github.com/bmeg/grip/gdbi"
+	"github.com/bmeg/grip/timestamp"
+	"github.com/jmoiron/sqlx"
+)
+
+// VerifNewGraphDB builds a GraphDB around an injected connection, without
+// sqlx.Connect (verification hook, build tag `verif`).
+func VerifNewGraphDB(db *sqlx.DB) gdbi.GraphDB {
+	ts := timestamp.NewTimestamp()
+	return &GraphDB{db, &ts}
+}
+
+// VerifNewGraph builds the Graph of `graph` over the given vertex and edge
+// tables around an injected connection (verification hook, build tag `verif`).
+func VerifNewGraph(db *sqlx.DB, graph, vertexTable, edgeTable string) gdbi.GraphInterface {
+	ts := timestamp.NewTimestamp()
+	return &Graph{db: db, v: vertexTable, e: edgeTable, ts: &ts, graph: graph}
+}
